@@ -94,6 +94,12 @@ impl Block for ZeroCrossing {
             Some(Ok(x)) => Some(x),
             Some(Err(e)) => return Err(e),
         };
+        if out_clock.as_ref().is_some_and(|c| c.is_empty()) {
+            // Returning Again with nothing done would spin.
+            drop(out_clock);
+            let clock = self.out_clock.as_ref().expect("can't happen: clock stream");
+            return Ok(BlockRet::WaitForStream(clock, 1));
+        }
         let max_out = if let Some(ref clock) = out_clock {
             std::cmp::min(o.len(), clock.len())
         } else {
